@@ -42,6 +42,32 @@ func rx(b []byte) []byte {
 	return c[:len(b)]
 }
 
+// scratchArg hands an argument to the library the way a caller with ONE scratch buffer per purpose does: two calls of
+// three get their octets in the same array as the previous argument of that length (overwritten in place), one gets a
+// fresh array.  A library that remembers the slice it was given - as a cache key, as a stored value - instead of the
+// octets then sees its memory change.
+var (
+	scratchArenas = map[[2]int][]byte{}
+	scratchCount  int
+)
+
+// (slot distinguishes the arguments of one call: two arguments of one call never share an array)
+func scratchArg(slot int, b []byte) []byte {
+	if !solo() || len(b) == 0 {
+		return b
+	}
+	if scratchCount++; scratchCount%3 == 0 {
+		return append([]byte(nil), b...)
+	}
+	a, ok := scratchArenas[[2]int{slot, len(b)}]
+	if !ok {
+		a = make([]byte, len(b))
+		scratchArenas[[2]int{slot, len(b)}] = a
+	}
+	copy(a, b)
+	return a
+}
+
 // spare returns a copy of b placed inside a larger buffer whose tail holds a different pattern
 func spare(b []byte, pat byte) []byte {
 	c := make([]byte, len(b)+96)
